@@ -1,6 +1,7 @@
 // c02probe: run C02 scenarios by hand against the whole-core simulator.
 //
 //	c02probe [-v] '<scenario>' ...      (scenarios run in parallel, one world each)
+//	c02probe -facts <repo>              (print Gen/C02Facts.lean as `vh gen` would write it for that tree)
 package main
 
 import (
@@ -20,6 +21,15 @@ func main() {
 	logrus.SetOutput(io.Discard)
 	fw.DispatchChild()
 	args := os.Args[1:]
+	if len(args) == 2 && args[0] == "-facts" {
+		s, err := c02.GenFacts(args[1])
+		fmt.Print(s)
+		if err != nil {
+			fmt.Fprintln(os.Stderr, err)
+			os.Exit(1)
+		}
+		return
+	}
 	if len(args) > 0 && args[0] == "-v" {
 		args = args[1:]
 		c02.Debug = func(s string) { fmt.Fprintln(os.Stderr, "  "+s) }
